@@ -217,7 +217,10 @@ class Disassembler:
                     subctl, sublengths = rst_args
                     ra_addr = address + length
                     ra_len = sum(s[0] for s in sublengths)
-                    if subctl == 'B':
+                    if ra_addr + ra_len > 65536:
+                        # The arguments would lie beyond the top of memory
+                        ra_len = 0
+                    elif subctl == 'B':
                         instructions.append(self._defb_line(ra_addr, self.snapshot[ra_addr:ra_addr + ra_len], sublengths))
                     elif subctl == 'W':
                         instructions.extend(self._defw_lines(ra_addr, ra_addr + ra_len, sublengths))
